@@ -282,6 +282,7 @@ func (l *Listener) Accept() (net.Conn, error) {
 		}
 		if len(l.queue) > 0 {
 			c := l.queue[0]
+			c.handedOut = true
 			l.queue = l.queue[1:]
 			l.Accepts++
 			return c, nil
@@ -425,6 +426,7 @@ func (n *Net) recFor(key string) *DialRecord {
 // Conn
 
 type Conn struct {
+	handedOut bool
 	n      *Net
 	id     string // "<from>><addr>#n/d" (dialer side) or ".../a" (acceptor side)
 	dialer bool
@@ -743,13 +745,14 @@ type ConnState struct {
 	InFlight, Unread            int
 	OpenedAt, ClosedAt, EOFAt   time.Duration
 	FinQueued, RstQueued        bool
+	HandedOut                   bool // (accepted side) returned by Listener.Accept, i.e. owned by the application
 }
 
 func (c *Conn) stateLocked() ConnState {
 	return ConnState{ID: c.id, Dialer: c.dialer, Local: c.local.String(), Remote: c.remote.String(),
 		Closed: c.closed, WClosed: c.wclosed, EOF: c.eof, Reset: c.reset, Sent: c.Sent, Delivered: c.Delivered,
 		ReadN: c.ReadN, InFlight: len(c.inflight), Unread: len(c.recv), OpenedAt: c.OpenedAt, ClosedAt: c.ClosedAt,
-		EOFAt: c.EOFAt, FinQueued: c.finQueued, RstQueued: c.rstQueued}
+		EOFAt: c.EOFAt, FinQueued: c.finQueued, RstQueued: c.rstQueued, HandedOut: c.handedOut}
 }
 
 func (c *Conn) State() ConnState {
@@ -859,6 +862,15 @@ func (n *Net) Apply(ev Event, k int) string {
 	defer n.mu.Unlock()
 	switch ev.Kind {
 	case EvDial:
+		live := false
+		for _, d := range n.dials {
+			if d == ev.dial {
+				live = true
+			}
+		}
+		if !live {
+			return ev.Key + " stale"
+		}
 		return n.resolveDialLocked(ev.dial)
 	case EvData:
 		c := ev.conn
